@@ -122,9 +122,14 @@ Definition exec_i (e : cenv) (i : iinstr) : step :=
         else StuckS
       end
   | ISelect r t c a b =>
-      match fetch_i e c 1, fetch_i e a t, fetch_i e b t with
-      | Some vc, Some x, Some y => Next ((r, if Z.odd vc then x else y) :: e)
-      | _, _, _ => StuckS
+      (* select does not inspect its value operands: only the chosen one is read (LLVM: the other may be poison) *)
+      match i_eval e c with
+      | Some vc =>
+          match i_eval e (if Z.odd vc then a else b) with
+          | Some x => Next ((r, x) :: e)
+          | None => StuckS
+          end
+      | None => StuckS
       end
   | _ => StuckS
   end.
